@@ -3,3 +3,10 @@ _spec = importlib.util.spec_from_file_location("C07", os.path.join(os.path.dirna
 # COTmrService over a pool of 3 events with one action per event (reduced pre-state family, see harness/tmr_fn_s.c)
 GROUPS = [_m._t("tmr3s_service", "COTmrService", 2, 3, {"C07": "quick", "C08": "quick", "C01": "quick"}, harness="tmr_fn_s.c",
                 bounded="timer pool of 3 events, each used event owning exactly its own action (COTmrService does not look at action lists); all list orders, deltas, counter values symbolic")]
+_spec = importlib.util.spec_from_file_location("C15", os.path.join(os.path.dirname(os.path.abspath(__file__)), "C15.py")); _m15 = importlib.util.module_from_spec(_spec); _spec.loader.exec_module(_m15)
+# silent COEmcyReset (the NMT reset path) over a table that spans TWO status bytes (10 errors): seeded change C20_I2 skips across the byte boundary
+_B10 = "build configuration CO_EMCY_N=10 errors = two status bytes (all tables, classes, states symbolic); silent reset only"
+_Q3 = {"C15": "quick", "C20": "quick", "C01": "quick"}
+# CaDiCaL decides these in about a minute; MiniSat does not finish the 8-error group with frames in 80 min
+GROUPS += [_m15._e("emcy_reset_silent10", "COEmcyReset", 4, _m15._DV, ["a"], timeout=1500, object_bits=12, props=_Q3, defs=["VW_OP=4", "CO_EMCY_N=10", "VW_SILENT_ONLY"], unwind_all=11, bounded=_B10, sat="cadical"),
+           _m15._e("emcy_reset8", "COEmcyReset", 4, _m15._DV, ["a"], timeout=1500, object_bits=12, props=_Q3, defs=["VW_OP=4", "CO_EMCY_N=8"], unwind_all=9, sat="cadical")]
